@@ -63,6 +63,8 @@ func emitEntries() []emitEntry {
 		{"cpp", "enc", P + ".CppGenerator).generateEncode", []string{"g2", "p"}},
 		{"cpp", "dec", P + ".CppGenerator).generateDecode", []string{"g2", "p"}},
 		{"lua", "dec", P + ".LuaWspGenerator).generateMainDissector", []string{"g", "p"}},
+		{"lua", "sub", P + ".LuaWspGenerator).generateSubDissector", []string{"g", "pname", "p"}},
+		{"lua", "fielddef", P + ".LuaWspGenerator).generateFieldDefinitionFromPacket", []string{"g", "mdl", "p"}},
 		{"go", "dispatch", P + ".GoGenerator).generateInit", []string{"g", "p", "mf"}},
 		{"java", "dispatch", P + ".JavaGenerator).GenerateMessageFactory", []string{"g", "p", "f", "mf"}},
 		{"rust", "dispatch", P + ".RustGenerator).generateMatchFieldEnumCode", []string{"g", "p"}},
@@ -432,6 +434,8 @@ func (e *Engine) runEmit(en emitEntry, c emitCell) (run emitRun) {
 			args = append(args, Value{o.field})
 		case "mf":
 			args = append(args, Value{o.attr})
+		case "mdl":
+			args = append(args, Value{o.model})
 		case "pname":
 			args = append(args, Value{Sym("in.p.CamelName", SStr)})
 		}
